@@ -1602,7 +1602,12 @@ func (w *bWorld) byzantineIntake(d *bDID) {
 	raw := &workload.RawSpec{Suffix: d.Suffix, Hash: d.Hash, Patches: patches}
 	kind := ""
 
-	switch k.Draw(6, "byz.kind") {
+	switch k.Draw(7, "byz.kind") {
+	case 6: // recover whose next UPDATE commitment is the commitment of the recovery key it reveals
+		raw.Hash = d.recAlg
+		raw.Type, raw.RevealKey = operation.TypeRecover, d.Rec
+		raw.NextRecoveryCommit, raw.NextUpdateCommit = w.newKey(d).Commitment(d.recAlg), d.Rec.Commitment(d.recAlg)
+		kind = "recover-update-commitment-of-revealed-key"
 	case 4: // update re-committing to the key it reveals, the commitment spelt under the protocol's OTHER hash algorithm
 		raw.Hash = d.updAlg
 		raw.Type, raw.RevealKey, raw.NextUpdateCommit = operation.TypeUpdate, d.Upd, d.Upd.Commitment(simenv.SHA2_256+simenv.SHA2_512-d.updAlg)
@@ -2757,7 +2762,8 @@ func (w *bWorld) versionCutChecks(d *bDID) {
 
 	// cuts outside the history
 	for fi, form := range forms {
-		for _, q := range []string{"versionId=no-such-version", "versionTime=" + url.QueryEscape(rfc(first-1)), "versionTime=" + url.QueryEscape(rfc(first-1000))} {
+		for _, q := range []string{"versionId=no-such-version", "versionId=" + url.QueryEscape("not found"), "versionId=" + url.QueryEscape("x not found y"),
+			"versionTime=" + url.QueryEscape(rfc(first-1)), "versionTime=" + url.QueryEscape(rfc(first-1000))} {
 			if code, m := w.get(form + "?" + q); code == http.StatusOK {
 				w.fail("C06", "node/cut-outside-history", fmt.Sprintf("did%d (%s form) resolved with %s, a cut outside its history (first operation at %d): %v",
 					d.Idx, []string{"short", "long"}[fi], q, first, m))
